@@ -84,6 +84,7 @@ type Instance struct {
 	PadHist    [16]int
 	BatchHist  []int // by min(k,63)
 	ReadFaults int
+	TooSmall   int // reads that failed with EINVAL because the first queued record does not fit the caller's buffer
 	// F8: MOVED_TO halves held back so that halves of renames issued by
 	// different tasks interleave, as inotify(7) allows on SMP
 	held      []heldRec
@@ -675,6 +676,7 @@ func (f *File) Read(b []byte) (int, error) {
 		return 0, &os.PathError{Op: "read", Path: f.name, Err: unix.EINTR}
 	}
 	if k == 0 {
+		in.TooSmall++
 		// first record does not fit: the kernel says EINVAL
 		return 0, &os.PathError{Op: "read", Path: f.name, Err: unix.EINVAL}
 	}
